@@ -7,6 +7,6 @@ mkdir -p "$S/repo" "$S/out"
 rsync -a --exclude .git --exclude /sipproxy /repo/ "$S/repo/"
 (cd "$S/repo" && patch -s -p1 -i "$D/patch.diff") || { echo "patch does not apply"; exit 2; }
 VERIF_REPO="$S/repo" VERIF_OUT="$S/out" "$V/bin/check" "$ID" "$TIER" 2>&1 | grep -E "^(check|VIOL|KNOWN|HARN)" | cut -c1-220 | head -12
-f=$(ls "$S"/out/replays/$ID/*.json 2>/dev/null | head -1)
+f=$(grep -L '"tracked_finding": true' "$S"/out/replays/$ID/*.json 2>/dev/null | head -1)
 [ -n "$f" ] && python3 -c "
 import json,sys;d=json.load(open('$f'));print(json.dumps(d['case'])[:400]);print(d['detail'][:1200])"
